@@ -338,7 +338,7 @@ func suiteDiscover(args []string) {
 	fs.Parse(args)
 	cw := newCaseWriter(*dir)
 	rep := &Report{Suite: "discover", Seed: *seed, Distribution: map[string]int{}}
-	rep.Rule = "every (supported list, offer) over a 4-version universe up to the length bounds (duplicates and unknown versions included), plus every pair of lists of length <= 2 (one side <= 1 in quick) over a 16-version WIDE universe of int32 extremes and numbers that collide under common packings/keys; all distinct; non-trivial = offer and supported list both non-empty"
+	rep.Rule = "every (supported list, offer) over a 4-version universe up to the length bounds (duplicates and unknown versions included), plus every pair of lists of length <= 2 (one side <= 1 in quick) over a 17-version WIDE universe (the zero version 0.0, int32 extremes and numbers that collide under common packings/keys; all distinct; non-trivial = offer and supported list both non-empty"
 	universe := []kmip.ProtocolVersion{{Major: 1, Minor: 0}, {Major: 1, Minor: 2}, {Major: 1, Minor: 4}, {Major: 2, Minor: 0}}
 	var lists func(n int) [][]kmip.ProtocolVersion
 	lists = func(n int) [][]kmip.ProtocolVersion {
@@ -416,7 +416,7 @@ func suiteDiscover(args []string) {
 	}
 	// the same over a WIDE universe: versions are two int32s, and any packing, hashing or textual
 	// key that identifies two distinct versions shows here (x<<16|y, x<<8|y, 10x+y, "xy", abs, int16 ...)
-	wide := []kmip.ProtocolVersion{{Major: 1, Minor: 4}, {Major: 1, Minor: 65540}, {Major: 65537, Minor: 4}, {Major: 0, Minor: 65540},
+	wide := []kmip.ProtocolVersion{{Major: 0, Minor: 0}, {Major: 1, Minor: 4}, {Major: 1, Minor: 65540}, {Major: 65537, Minor: 4}, {Major: 0, Minor: 65540},
 		{Major: -65535, Minor: 4}, {Major: 1, Minor: 14}, {Major: 11, Minor: 4}, {Major: 2, Minor: 4}, {Major: 1, Minor: 260},
 		{Major: 0, Minor: 14}, {Major: 1, Minor: -4}, {Major: -1, Minor: 4}, {Major: 2147483647, Minor: 0}, {Major: -2147483648, Minor: 0},
 		{Major: 4, Minor: 1}, {Major: 257, Minor: 4}}
